@@ -90,7 +90,7 @@ var Vp8 = &cu.Spec{
 		case 1:
 			return 2
 		case 2:
-			if r.IntN(8) == 0 {
+			if r.IntN(30) == 0 {
 				return 65535
 			}
 			return 100 + r.IntN(200)
